@@ -28,10 +28,12 @@ theorem failed_stmt_no_effect (σ : State) (op : Op) (h : (codeStep σ op).2 = .
     cases st with
     | some ps => simp [step] at h
     | none =>
-      simp only [step] at h ⊢
-      split
-      · rfl
-      · rename_i hf; simp [hf] at h
+      by_cases hf : (exec c a s).failed = true
+      · simp [step, hf]
+      · exfalso
+        have hf' : (exec c a s).failed = false := by simpa using hf
+        simp only [step, hf', Bool.false_eq_true, if_false] at h
+        split at h <;> cases h
   | tq s =>
     cases st with
     | none => simp [step] at h
